@@ -35,7 +35,10 @@ pub fn datasets(tier: &str) -> Vec<(String, Vec<(usize, Row)>)> {
         mk(6, "c1", 7, 100.0, "B", Some(-3), 1700000400),
         mk(7, "c0", 3, 0.0, "é", Some(5), 1700000250),
     ];
-    let mut out = vec![("seven".to_string(), base.clone())];
+    // 30 rows with distinct keys: with one row per zone there are more flushed zones than any
+    // top-k pre-selection sized from a small LIMIT keeps, so that large OFFSETs matter
+    let many: Vec<(usize, Row)> = (0..30).map(|i| mk(100 + i, if i % 2 == 0 { "c0" } else { "c1" }, (i * 7) % 30, i as f64, &format!("s{:02}", (i * 11) % 30), Some(i), 1700001000 + ((i * 13) % 30) * 10)).collect();
+    let mut out = vec![("seven".to_string(), base.clone()), ("thirty".to_string(), many)];
     if tier != "quick" {
         out.push(("first3".to_string(), base[..3].to_vec()));
         out.push(("one".to_string(), base[..1].to_vec()));
@@ -120,6 +123,14 @@ fn build(tier: &str) -> (Vec<String>, Vec<OQ>, usize) {
         oqs.push(OQ { text: format!("QUERY g{pre}{post} OFFSET 1"), sel: fi, field: None, desc: false, limit: None, offset: Some(1), expect_400: true });
         oqs.push(OQ { text: format!("QUERY g{pre}{post} ORDER BY k OFFSET 2"), sel: fi, field: Some("k"), desc: false, limit: None, offset: Some(2), expect_400: true });
         oqs.push(OQ { text: format!("QUERY g{pre}{post} LIMIT 3 OFFSET 2"), sel: fi, field: None, desc: false, limit: Some(3), offset: Some(2), expect_400: false });
+        if fi == 0 {
+            for (n, m) in [(1usize, 11usize), (1, 25), (2, 21), (2, 27), (3, 26)] {
+                for desc in [false, true] {
+                    let dir = if desc { " DESC" } else { "" };
+                    oqs.push(OQ { text: format!("QUERY g ORDER BY k{dir} LIMIT {n} OFFSET {m}"), sel: fi, field: Some("k"), desc, limit: Some(n), offset: Some(m), expect_400: false });
+                }
+            }
+        }
     }
     for q in &oqs {
         texts.push(q.text.clone());
